@@ -63,8 +63,16 @@ class IC10Register:
                 return self._lifetime
 
             for node in self.nodes_writing:
-                # a variable of the main file or of a library module lives as long as the program
-                if isinstance(node.scope(), nodes.Module):
+                # a variable of the main file or of a library module lives as long as the program,
+                # also when it is only ever assigned inside functions that declare it global
+                scope = node.scope()
+                if isinstance(scope, nodes.Module) or (
+                    isinstance(scope, nodes.FunctionDef)
+                    and any(
+                        getattr(node, "name", None) in decl.names
+                        for decl in scope.nodes_of_class(nodes.Global)
+                    )
+                ):
                     self._lifetime = range(0, sys.maxsize)
                     break
 
